@@ -328,7 +328,8 @@ func init() {
 	// ---- RPC -> REST -> RPC through two chained transcoders
 	chainMsgs := map[string][]string{
 		"Unary":  msgAlphabet,
-		"Pure":   {`{"name":"n"}`, `{"name":"isbn:123"}`, `{"name":"a$b&c+d=e@f,g;h!i*j'(k)","num":1}`, `{"name":"x:act"}`, `{"name":"a b/c%2F+é","num":-7,"extraText":"q&a=1#x","tags":["","t 1","t&2"],"nums":[0,-1],"seq":"9223372036854775807","raw":"AP8="}`, `{"name":"x","pv":{"doubleValue":"NaN","int64Value":"-5","enumValue":"ENUM_VALUE","doubleList":[1.5,"Infinity"],"timestamp":"2024-02-29T23:59:59.5Z","duration":"-1.500s","fieldMask":"a,b","boolValueWrapper":false,"stringValueWrapper":"","bytesValue":"/+8="}}`, `{"name":"y","child":{"name":"deep","child":{"num":3,"tags":["z"]}}}`},
+		"Pure":   {`{"name":"n"}`, `{"name":"isbn:123"}`, `{"name":"a$b&c+d=e@f,g;h!i*j'(k)","num":1}`, `{"name":"x:act"}`, `{"name":"a b/c%2F+é","num":-7,"extraText":"q&a=1#x","tags":["","t 1","t&2"],"nums":[0,-1],"seq":"9223372036854775807","raw":"AP8="}`, `{"name":"x","pv":{"doubleValue":"NaN","int64Value":"-5","enumValue":"ENUM_VALUE","doubleList":[1.5,"Infinity"],"timestamp":"2024-02-29T23:59:59.5Z","duration":"-1.500s","fieldMask":"a,b","boolValueWrapper":false,"stringValueWrapper":"","bytesValue":"/+8="}}`, `{"name":"y","child":{"name":"deep","child":{"num":3,"tags":["z"]}}}`,
+			`{"name":"q1","pv":{"stringValueWrapper":"\"quoted\""}}`, `{"name":"q2","pv":{"stringValueWrapper":"a\u007fb\u0001c"}}`, `{"name":"q3","pv":{"stringValueWrapper":"\""}}`, `{"name":"q4","extraText":"\"quoted\""}`, `{"name":"q5","pv":{"enumValue":7}}`},
 		"Idem":   {`{"name":"k","child":{"name":"c","nums":[1]}}`, `{"name":"k/2","child":{},"num":3,"tags":["a"]}`, `{"name":"é","extraText":"e"}`},
 		"Multi":  {`{"name":"a"}`, `{"name":"a:b/c$d"}`, `{"name":"a/b/c"}`, `{"name":"a%2Fb/c d","num":1}`, `{"name":"é/😀"}`},
 		"Nested": {`{"child":{"name":"cn"},"tags":["a","b"]}`, `{"child":{"name":"c:n"},"tags":["t"]}`, `{"child":{"name":"x:act"},"tags":[]}`, `{"child":{"name":"c/n","num":4},"tags":[],"name":"top"}`},
@@ -354,6 +355,12 @@ func init() {
 		prev := c.Free("preceded-by", len(chainMsgs[method])+1)
 		c.Attr("rule", method)
 		c.Attr("~message", short100(js))
+		switch {
+		case strings.Contains(js, `Wrapper":"\"`):
+			c.Attr("value-class", "wrapper-string-in-double-quotes")
+		case strings.Contains(js, `"enumValue":7`):
+			c.Attr("value-class", "enum-number-without-name")
+		}
 		orig := MkMsg(js)
 		final := &c07Backend{resp: MkMsg(`{"name":"rn","child":{"name":"rc"},"tags":["r1"],"body":{"contentType":"a/b","data":"AQID"}}`)}
 		tc2, err := world.Build(world.Config{Protocols: []vanguard.Protocol{vanguard.ProtocolConnect}, Codecs: []string{"proto"}, MaxMsg: 1 << 20}, final)
